@@ -5,7 +5,8 @@
 (*              and "fill" histories that bring the known list over the real  *)
 (*              prune threshold                                               *)
 (*  flooding:   behaviours of the multi-node flooding model (edges + walks),  *)
-(*              printed when the network is empty again                       *)
+(*              printed when the network is empty again; with Split (cfg) the  *)
+(*              receive handlers are two steps (begin / finish) and overlap   *)
 EXTENDS Multicast, Json, IOUtils
 VARIABLES hist, pre     \* pre: the model state before the last step (edges mode: one history per (source state, step))
 
@@ -21,6 +22,9 @@ FAllLinks == {{a, b} : a, b \in FNode} \ {{a} : a \in FNode}
 AllOverlays == SUBSET FAllLinks
 Iso4 == { {{1,2},{2,3},{3,4}}, {{1,2},{1,3},{1,4}}, {{1,2},{2,3},{3,4},{4,1}}, {{1,2},{2,3},{3,1},{3,4}},
           {{1,2},{2,3},{3,4},{4,1},{1,3}}, {{1,2},{1,3},{1,4},{2,3},{2,4},{3,4}} }
+\* overlays with a cycle: a node gets the same message from two peers
+Tri3 == { {{1,2},{2,3},{1,3}} }
+Cyclic4 == { {{1,2},{2,3},{3,1},{3,4}}, {{1,2},{2,3},{3,4},{4,1}}, {{1,2},{2,3},{3,4},{4,1},{1,3}} }
 AllJoined == {FNode}
 AnyJoined == SUBSET FNode
 
@@ -63,15 +67,15 @@ GLInit == FInit /\ MIdle /\ hist = <<>> /\ pre = <<>>
 FlatCopy(m) == [origin |-> m.id[1], serial |-> m.id[2], from |-> m.from, to |-> m.to]
 FOp == IF flast'.op = "originate" THEN [op |-> "originate", n |-> flast'.n]
        ELSE IF flast'.op = "deliver" THEN [op |-> "deliver", m |-> FlatCopy(flast'.m)]
-       ELSE IF flast'.op = "lose" THEN [op |-> "lose", m |-> FlatCopy(flast'.m)]
+       ELSE IF flast'.op \in {"lose", "begin", "finish"} THEN [op |-> flast'.op, m |-> FlatCopy(flast'.m)]
        ELSE flast'
 GLNext == /\ Len(hist) < Depth
           /\ FNext /\ UNCHANGED mvars
-          /\ hist' = Append(hist, FOp) /\ pre' = <<win, fnet>>
+          /\ hist' = Append(hist, FOp) /\ pre' = <<win, fnet, act>>
 GLSpec == GLInit /\ [][GLNext]_<<mvars, fvars, hist, pre>>
-FEdgeView == <<pre, olinks, members, win, fnet, norig, nwin, nfloss, flast>>
+FEdgeView == <<pre, olinks, members, win, fnet, act, norig, nwin, nfloss, flast>>
 FScn == [par |-> [kind |-> "flood", nodes |-> FNode, links |-> olinks, joined |-> members], ops |-> hist]
-FQuiet == fnet = <<>> /\ hist # <<>>
+FQuiet == fnet = <<>> /\ hist # <<>> /\ \A n \in FNode : act[n] = {}
 EmitFQuiet == FQuiet => PrintT(<<"SCN", ToJson(FScn)>>)
 EmitFAll   == hist # <<>> => PrintT(<<"SCN", ToJson(FScn)>>)
 EmitFDone  == (FQuiet /\ TotalOrig = MaxMsgs) => PrintT(<<"SCN", ToJson(FScn)>>)
